@@ -25,6 +25,7 @@ import (
 	"context"
 	"encoding/json"
 	"fmt"
+	"os"
 	"sort"
 	"strings"
 	"testing"
@@ -280,6 +281,10 @@ type world struct {
 
 var xrGK = verifenv.XRGVKDefault.GroupKind()
 
+// nonMonotone (manual exploration only, never set by the driver) lets a controller's cached view of
+// a claim go back in time between reconciles.
+var nonMonotone = os.Getenv("VERIF_C06_NONMONOTONE") != ""
+
 func refName(o verifsim.Obj) string {
 	s, _ := verifsim.Nested(o, "spec", "resourceRef", "name").(string)
 	return s
@@ -366,8 +371,8 @@ func newWorld(sc scenario, fail func(string, ...any)) *world {
 			"params":         map[string]any{"p0": "legacy"},
 		}
 		if sc.ForeignDiff == "kind" {
-			// A claim of another kind with the same namespace and name: its labels coincide with ours,
-			// which is the input's doing; O2 counts it from the start and only judges growth.
+			// A claim of ANOTHER KIND with our namespace and name. The claim-name/-namespace labels cannot
+			// tell the two apart, so this input carries none (O2 counts label carriers).
 			xr.SetLabels(map[string]string{"legacy": "true"})
 		}
 		if err := user.Create(ctx, xr); err != nil {
@@ -534,8 +539,11 @@ func (w *world) claimReconcile(c claimID, plan map[int]verifsim.Fault, lag int, 
 			return 0
 		}
 		target := cur - lag
-		if target < w.st.seen[c] {
+		if target < w.st.seen[c] && !nonMonotone {
 			target = w.st.seen[c]
+		}
+		if target < 0 {
+			target = 0
 		}
 		if target > cur {
 			target = cur
@@ -1123,5 +1131,35 @@ func TestVerifC06SanityForeign(t *testing.T) {
 		if len(w.st.created[sc.Claim]) != 0 || len(xrNames(w)) != 1 {
 			t.Fatalf("%s: positive control: binding a static XR must not create another one: %v", sc.config(), xrNames(w))
 		}
+	}
+}
+
+// TestVerifC06ObservationTimeTravel records (never fails on) what happens OUTSIDE the cache model of
+// this check: if a controller's cached claim goes BACK in time (e.g. a restarted controller whose
+// informer lists from a lagging API server replica) after the claim was deleted and finalized, the
+// client-side syncer re-creates the recorded XR without touching the claim (no claim write, hence
+// no resourceVersion check), leaving an XR whose claim is gone; the server-side syncer always
+// updates the claim first and is refused. The number of XRs per claim stays <= 1 either way.
+func TestVerifC06ObservationTimeTravel(t *testing.T) {
+	rec := verifkit.New(t, "C06", "observation outside the monotone cache model (never a verdict)")
+	defer func(old bool) { nonMonotone = old }(nonMonotone)
+	for _, sc := range pinnedScenarios() {
+		if sc.Upgrade {
+			continue
+		}
+		nonMonotone = false
+		w := newWorld(sc, func(f string, a ...any) { t.Logf(f, a...) })
+		w.ssaNow = sc.SSA
+		_, _ = w.claimReconcile(sc.Claim, nil, 0, nil) // binds and creates the XR
+		w.apply(step{Kind: "delete"})
+		_, _ = w.claimReconcile(sc.Claim, nil, 0, nil) // deletes the XR, removes the finalizer: the claim is gone
+		gone := w.sim.Get(sc.Claim.key()) == nil && len(xrNames(w)) == 0
+		_ = w.sim.TakeViolations()
+		nonMonotone = true
+		_, _ = w.claimReconcile(sc.Claim, nil, 2, nil) // the cache travels back to "bound, not deleted"
+		recreated := gone && len(xrNames(w)) == 1
+		_ = w.sim.TakeViolations()
+		rec.Extra("observation_"+sc.config()+"_recreates_xr_for_deleted_claim_when_cache_goes_back_in_time", fmt.Sprint(recreated))
+		t.Logf("%s: claim+XR gone=%v, XR re-created from a time-travelling cache=%v", sc.config(), gone, recreated)
 	}
 }
